@@ -772,6 +772,11 @@ def call_native_method(it, recv, name, args, kwargs, pc):
         for pres, k in it.iter_items(args[0], fr, pc):
             symdict_set(it, d, k, val, vc.c_and(pc, pres) if pc is not vc.CT else pres)
         return d
+    if name == "match" and len(args) == 1 and type(args[0]) is StructStr and not kwargs and type(recv) is not U:
+        import re as _re
+
+        if isinstance(recv, _re.Pattern):
+            return regex_match_structstr(it, recv, args[0], pc)
     # a registered override for (type, method)?
     ov = it.native_overrides.get((type(leaf0), name))
     if ov is not None:
@@ -1034,12 +1039,75 @@ def symdict_copy(d):
 # -------------------------------------------------------------------------------------------------
 
 
+# -------------------------------------------------------------------------------------------------
+# re.match on a structured string
+# -------------------------------------------------------------------------------------------------
+
+_RE_UNSAFE = ("$", "\\b", "\\B", "\\Z", "\\A", "(?=", "(?!", "(?<", "(?P=", "\\1", "\\2", "(?i", "(?m", "(?s", "(?x")
+
+
+def regex_match_structstr(it, pat, ss, pc):
+    """pattern.match(ss) for a compiled pattern and a structured string, where the outcome is
+    decided by the first chunk: for every alternative h of the first chunk, either no further
+    chunk is present (the string is h: real `re`), or the string is h + sep + <unknown rest> and
+    the pattern's NFA (spec/regex_nfa.py), after reading h + sep, has no state left that can read
+    another character - then every match ends inside h + sep and the real `re` on h + sep returns
+    the same match (same candidates, same priorities).  Patterns with anchors, look-around,
+    back-references or inline flags are refused (their outcome may depend on what follows)."""
+    import re as _re
+
+    vc, m = it.vc, it.m
+    if not isinstance(pat, _re.Pattern) or not isinstance(pat.pattern, str):
+        raise Unsupported("regex match with %r" % (pat,))
+    if pat.flags & ~_re.UNICODE:
+        raise Unsupported("regex flags on a symbolic string")
+    text = pat.pattern
+    if any(x in text for x in _RE_UNSAFE) or text.startswith("^"):
+        raise Unsupported("regex %r on a symbolic string: anchors / look-around not modelled" % text)
+    if not ss.chunks or ss.chunks[0][0] is not m.TRUE:
+        raise Unsupported("regex match on a structured string without a fixed first chunk")
+    import os as _os
+    import sys as _sys
+
+    root = _os.path.dirname(_os.path.dirname(_os.path.abspath(__file__)))
+    if root not in _sys.path:
+        _sys.path.insert(0, root)
+    from spec import regex_nfa as R
+
+    try:
+        nfa = R.parse("^(?:" + text + ")$")
+    except Exception as e:  # noqa: BLE001
+        raise Unsupported("regex %r not in the NFA engine's subset: %s" % (text, e))
+    more = m.or_all([g for g, _ in ss.chunks[1:]]) if len(ss.chunks) > 1 else m.FALSE
+    none_more = m.NOT(more)
+    outs = []
+    for g, h in vc.alts(ss.chunks[0][1]):
+        if not isinstance(h, str):
+            raise Unsupported("regex match: first chunk alternative %r" % (h,))
+        ga = m.AND(g, none_more)
+        if ga is not m.FALSE:
+            outs.append((ga, pat.match(h)))
+        gb = m.AND(g, more)
+        if gb is not m.FALSE:
+            p_ = h + ss.sep
+            states = R.step(nfa, R.initial(nfa), p_)
+            if any(nfa.trans[s_] for s_ in states):
+                raise Unsupported("regex %r: the match is not decided by the first chunk %r" % (text, h))
+            outs.append((gb, pat.match(p_)))
+    return vc.mk_union(outs, sweep=False)
+
+
+
 def call_real(it, f, args, kwargs, pc):
     vc = it.vc
     I = _I()
     ov = it.native_overrides.get(f) if _hashable(f) else None
     if ov is not None:
         return ov(it, args, kwargs, pc)
+    import re as _re
+
+    if f is _re.match and len(args) == 2 and type(args[1]) is StructStr and isinstance(args[0], str) and not kwargs:
+        return regex_match_structstr(it, _re.compile(args[0]), args[1], pc)
     conv = []
     for a in args:
         if isinstance(a, SymList):
